@@ -1580,6 +1580,8 @@ else:
           self._key = 'Kkey'
           self._val = 'Kval'
           return
+      def __reduce__(self): # reconnect to the same database and table
+          return (self.__class__, (self.__state__['root'], self.__state__['id']))
       def __drop__(self, **kwds):
           """drop the database table
 
